@@ -91,7 +91,7 @@ def trees(ck, quick):
     for d in r.printed("TRACEBAD"):
         t = by[d["id"]]
         ck.violation("spec %r: the real parser's step %d is not the step of the documented LALR(1) parse / the tree built from its "
-                     "reductions is not the tree that was written (expected action %s)" % (t["text"].replace("\n", " "), d["at"], d["expect"]),
+                     "reductions is not the tree that was written (expected action %s)" % (vp.short_blanks(t["text"]), d["at"], d["expect"]),
                      {"property": "C04", "kind": "parse", "text": t["text"], "decls": t["decls"]})
     ck.coverage["traces_validated_against_impl"] += len(traces)
     return r, len(traces)
